@@ -277,3 +277,21 @@ def c20(ctx):
     ctx.exhaustive = True
     ctx.assumptions += ["the kernel's inotify queue orders events of the watched directories as they happened",
                         "crash points are the prefixes of the observed system-call sequence (no process is actually killed)"]
+
+
+# =========================================================================== hashio (C12)
+@prop("C12", "C12Trace",
+      "TLC enumerates all 64 ordered lists of distinct algorithms x chunkings (sizes 0, 1, 2, 63, 64, 65) for writers, "
+      "x read-buffer sequences x stream lengths for readers (singular and plural constructors), and verifier scenarios: "
+      "entry source {Checksums-Sha256 of a .dsc, best-checksum selector for sha256/sha512, FileHashFromHasher for all four} "
+      "x recorded hash {equal, upper-case, unequal, truncated odd/even, digest of empty content, digest under each other "
+      "algorithm} x content length x chunking; plus seeded streams up to 3 MiB.")
+def c12(ctx):
+    t = ctx.tier
+    mc(ctx, "HashIOMC.tla", "HashIOMC_%s.cfg" % t, what="ideal-digest plumbing: pass-through, sizes, sums, verifier iff")
+    g1 = gen(ctx, "HashIOGen.tla", "HashIOGen_%s.cfg" % t, ctx.path("hio.ndjson"), what="behaviours and verifier scenarios")
+    r = hgen(ctx, "C12", ctx.path("rand.ndjson"))
+    judge(ctx, "C12", vf.cat(ctx.path("vec.ndjson"), g1, r), what="hashing pipelines and verifiers")
+    ctx.exhaustive = True
+    ctx.assumptions += ["whether bytes are the true MD5/SHA-1/SHA-256/SHA-512 of a stream is ground truth from Go's crypto "
+                        "packages, logged as the fact sum_is / hash_is; the specification uses ideal (injective) digests"]
